@@ -288,7 +288,13 @@ def main():
                 broken.append({'stage': 'cxx', 'detail': 'the library does not build %s: %s' % (vwhat, e.detail[-600:])})
 
     # C++-only differential / oracle stage (things the model cannot execute: real engines, real MPI, system calls)
-    extra = props.extra_checks(pid, rng, a.tier, st, cov) if st.get('cxx_exe') else []
+    try:
+        extra = props.extra_checks(pid, rng, a.tier, st, cov) if st.get('cxx_exe') else []
+    except Exception:
+        # the C++-only stage itself failed on this tree (the implementation does something the stage was not prepared for): not shown to
+        # violate the property, but no longer shown to hold either
+        extra = []
+        broken.append({'stage': 'correspondence', 'detail': 'the C++-only stage of this check failed on this tree: ' + traceback.format_exc()[-700:]})
     violations = list(sanitizer_viol)
     for v in extra:
         if v.get('tie'):
